@@ -51,6 +51,8 @@ def run(ctx):
     ctx.rule("R3.count-test-under-lock", "the strong_count test deciding per-thread cleanup is made while the map's write guard is live (Send reference types)", floor=1)
     ctx.rule("R4.confinement-witnesses", "Ref<T>: !Send + !Sync; unsafe Send/Sync impls are in the justified table", floor=4)
     ctx.rule("R5.create-outside-insert-under-lock", "current_thread_instance: conversion Family->T not under a guard; entry() match under the write guard; occupied arm returns the registered instance", floor=4)
+    ctx.rule("R7.exposed-family-comes-from-registry", "what a thread caches/exposes for a static is read back from the global registry (the arbiter); the family created for a first access only flows into the vacant registry entry, never into a return value", floor=2)
+    ctx.rule("R8.reference-drop-always-decides", "the Drop of a per-thread reference reaches its reference-count test on every path (no early exit, e.g. while panicking): the instance goes exactly when the last aligned reference goes", floor=2)
     ctx.rule("R6.first-registration-wins", "global registry writes use entry()/Vacant::insert only; no HashMap::insert that could replace a registered family", floor=1)
 
     # ---------------- R1
@@ -139,6 +141,12 @@ def run(ctx):
         ctx.ob("R2.cleanup-keyed-by-origin", short(adt), ok, d.loc(),
                f"{short(adt)}: Send={is_send}; its Drop reaches thread::current(): {bool(reach)}" +
                ("" if ok else f" (via {reach}) - dropped on another thread it clears THAT thread's entry: the origin's instance leaks and a live instance of the dropping thread can be removed"))
+        # R8: the count test is reached on every normal path of Drop
+        sc_all = [bb for bb, t in d.calls() if callee_key(t["callee"]).endswith("::strong_count") and not d.blocks[bb].cleanup]
+        rets = d.exits(("return",))
+        skip = d.reachable([0], unwind=False, avoid=sc_all)
+        ctx.ob("R8.reference-drop-always-decides", short(adt), bool(sc_all) and not [r_ for r_ in rets if r_ in skip], d.loc(),
+               f"strong_count test sites {len(sc_all)}; return reachable without passing one: {bool([r_ for r_ in rets if r_ in skip])}")
         if is_send:
             # R3: strong_count read under the write guard
             gl = GuardLiveness(d)
@@ -211,6 +219,33 @@ def run(ctx):
         bad += [w for w in writes if w.split("::")[-1] in ("and_modify", "remove", "clear", "retain", "insert_entry")]
         ctx.ob("R6.first-registration-wins", "try_initialize_global_registry", bool(writes) and not bad, ti.loc(),
                f"registry writes: {[w.split('::')[-2] + '::' + w.split('::')[-1] for w in writes]}; replacing writes: {bad or 'none'}")
+
+    # ---------------- R7
+    g = prog.one("static_instances::StaticInstances::get")
+    if g is None:
+        ctx.missing("R7.exposed-family-comes-from-registry", "StaticInstances::get")
+    else:
+        ctx.fn(g)
+        sl_calls = calls_to(g, "StaticInstances::set_local")
+        ok = len(sl_calls) >= 1
+        det = [f"set_local sites {len(sl_calls)}"]
+        for bb, t in sl_calls:
+            sl = Slice(g).run(t["args"][1])
+            names = [k.split("::")[-1] for k, _b, _t in sl["calls"]]
+            from_reg = "get_family_global" in names
+            from_created = "try_initialize_global_registry" in names or any(n in ("family", "call_once", "call") for n in names)
+            ok = ok and from_reg and not from_created
+            det.append(f"cached family derives from get_family_global: {from_reg}; from the creating call: {from_created}")
+        ctx.ob("R7.exposed-family-comes-from-registry", "get.cached-family", ok, g.loc(), "; ".join(det))
+    ti2 = prog.one("static_instances::StaticInstances::try_initialize_global_registry")
+    if ti2 is None:
+        ctx.missing("R7.exposed-family-comes-from-registry", "try_initialize_global_registry")
+    else:
+        fam = [(bb, t) for bb, t in ti2.calls() if t["callee"].get("method") == "family"]
+        rsl = Slice(ti2).run({"k": "copy", "place": {"l": 0, "p": []}})
+        leaks = any(t is ft for _k, _b, t in rsl["calls"] for _bb, ft in fam)
+        ctx.ob("R7.exposed-family-comes-from-registry", "try_initialize.created-family-not-returned", bool(fam) and not leaks, ti2.loc(),
+               f"family() creation sites {len(fam)}; the created family flows into the return value: {leaks}")
 
 
 def reaches(prog, uc, body, target, depth=8):
